@@ -572,4 +572,20 @@ theorem zipWith_mul_ones (F : Shape) : List.zipWith (· * ·) F (List.replicate 
   | cons d F ih => simp [List.replicate_succ, ih]
 
 
+variable {α : Type} in
+theorem applyEntry_node_other (call : LeafCall) (bs : Shape) (names : Names) (es : List (String × TD α))
+    (hns : ∀ ds sh n, call = LeafCall.squeezeDims ds sh n → False) :
+    applyEntry call (.node bs names es) = tdNode (opOfCall call bs) bs names es := by
+  cases call <;> first | (exact absurd rfl (fun e => hns _ _ _ e)) | (rw [applyEntry]; exact hns)
+
+variable {α : Type} in
+theorem applyEntry_node_squeezeDims (ds : List Nat) (sh : Shape) (n : Nat) (bs : Shape) (names : Names) (es : List (String × TD α)) :
+    applyEntry (.squeezeDims ds sh n) (.node bs names es) =
+      (match mapEntries (.squeezeDims ds (eraseDims bs ds) bs.length) es with
+       | .error e => .error e
+       | .ok es' => .ok (.node (eraseDims bs ds) (normNames (names.map fun l => if l.isEmpty then l else eraseDims l ds)) es')) := by
+  rw [applyEntry]
+  simp only [bind, Except.bind, pure, Except.pure]
+  cases mapEntries (LeafCall.squeezeDims ds (eraseDims bs ds) bs.length) es <;> rfl
+
 end TdVerif.C02
